@@ -1354,9 +1354,9 @@ func c20Formats(c *Ctx) {
 			for _, f := range fd.Type.Params.List {
 				t := c.typeOf(f.Type)
 				for _, nm := range f.Names {
-					if p, ok := t.(*types.Pointer); ok && types.Identical(p.Elem(), types.Typ[types.Int]) {
-						linePtr = c.Info.Defs[nm]
-					} else if types.Identical(t, types.Typ[types.Int]) {
+					if p, ok := t.(*types.Pointer); ok && types.Identical(p.Elem().Underlying(), types.Typ[types.Int]) {
+						linePtr = c.Info.Defs[nm] // *int, or a pointer to a named counter type
+					} else if types.Identical(t.Underlying(), types.Typ[types.Int]) {
 						lineInt = c.Info.Defs[nm]
 					}
 				}
@@ -1422,6 +1422,13 @@ func c20Formats(c *Ctx) {
 			_ = incEpoch
 			good := true
 			for _, it := range ints {
+				for {
+					cv, isConv := it.(TConv)
+					if !isConv || !isIntType(cv.To) {
+						break
+					}
+					it = cv.X // int(*line) of a named counter type
+				}
 				switch v := it.(type) {
 				case TDeref:
 					if linePtr == nil || !isParamTerm(v.X, linePtr) {
